@@ -16,7 +16,13 @@
 //
 // stdout: one line per history, one observable per op joined by '|':
 //
-//	ret/len/keys/vals/dump[/backward]      (just `ret` for an unobserved op)
+//	ret/len/keys/vals/dump/nil/align/backward      (just `ret` for an unobserved op; set: ret/keys/nil)
+//
+// nil = "K" and/or "V" when Keys() / Values() returned a nil slice; align = "ok" | "bad@i" for the
+// containers whose Keys()[i] and Values()[i] must belong together (linked maps, tree-backed maps):
+// Values()[i] is compared with Get(Keys()[i]) on the implementation itself.  EVERY slice returned by
+// Keys / Values / multi-map Get / Delete is overwritten (and its spare capacity too) after it has
+// been printed: a container that hands out an internal slice shows at the next observation.
 package c03
 
 import (
@@ -112,6 +118,25 @@ func scribble(l []int64) {
 	}
 }
 
+// scribbleAny overwrites every element of a returned slice, and its spare capacity, with g
+func scribbleAny[T any](l []T, g T) {
+	l = l[:cap(l)]
+	for i := range l {
+		l[i] = g
+	}
+}
+
+func nilFlags(keysNil, valsNil bool) string {
+	f := ""
+	if keysNil {
+		f += "K"
+	}
+	if valsNil {
+		f += "V"
+	}
+	return f
+}
+
 func setFamilies(code, eq string) {
 	lawless = strings.HasPrefix(code, "L")
 	code = strings.TrimPrefix(code, "L")
@@ -136,15 +161,7 @@ type smap[K any] struct {
 	un       func(K) int64
 	dump     func() string
 	backward func() []K
-}
-
-func (s *smap[K]) keys() string {
-	ks := s.m.Keys()
-	l := make([]int64, len(ks))
-	for i, k := range ks {
-		l[i] = s.un(k)
-	}
-	return joinInts(l, ";")
+	aligned  bool // Keys()[i] and Values()[i] belong together (order list / in-order walk)
 }
 
 func (s *smap[K]) obs(ret string) string {
@@ -154,19 +171,45 @@ func (s *smap[K]) obs(ret string) string {
 	if s.quiet {
 		return ret
 	}
+	ks := s.m.Keys()
+	keysNil := ks == nil
+	own := append([]K(nil), ks...)
+	scribbleAny(ks, s.mk(-999))
 	vals := s.m.Values()
-	o := ret + "/" + strconv.FormatInt(s.m.Len(), 10) + "/" + s.keys() + "/" + joinInts(vals, ";") + "/"
+	valsNil := vals == nil
+	ownVals := append([]int64(nil), vals...)
 	scribble(vals)
+	kl := make([]int64, len(own))
+	for i, k := range own {
+		kl[i] = s.un(k)
+	}
+	o := ret + "/" + strconv.FormatInt(s.m.Len(), 10) + "/" + joinInts(kl, ";") + "/" + joinInts(ownVals, ";") + "/"
 	if s.dump != nil {
 		o += s.dump()
 	}
+	o += "/" + nilFlags(keysNil, valsNil) + "/"
+	if s.aligned {
+		a := "ok"
+		if len(own) != len(ownVals) {
+			a = "bad@len"
+		} else {
+			for i := range own {
+				if v, ok := s.m.Get(own[i]); !ok || v != ownVals[i] {
+					a = "bad@" + strconv.Itoa(i)
+					break
+				}
+			}
+		}
+		o += a
+	}
+	o += "/"
 	if s.backward != nil {
 		bk := s.backward()
 		l := make([]int64, len(bk))
 		for i, k := range bk {
 			l[i] = s.un(k)
 		}
-		o += "/" + joinInts(l, ";")
+		o += joinInts(l, ";")
 	}
 	return o
 }
@@ -246,6 +289,8 @@ type mmap[K any] struct {
 	mk     func(int64) K
 	un     func(K) int64
 	dump   func() string
+	// Keys()[i] and Values()[i] belong together (tree backing: both are in-order walks)
+	aligned bool
 }
 
 func (s *mmap[K]) obs(ret string) string {
@@ -256,23 +301,47 @@ func (s *mmap[K]) obs(ret string) string {
 		return ret
 	}
 	ks := s.m.Keys()
-	l := make([]int64, len(ks))
-	for i, k := range ks {
+	keysNil := ks == nil
+	own := append([]K(nil), ks...)
+	scribbleAny(ks, s.mk(-999))
+	l := make([]int64, len(own))
+	for i, k := range own {
 		l[i] = s.un(k)
 	}
 	vals := s.m.Values()
+	valsNil := vals == nil
 	vs := make([]string, len(vals))
+	ownVals := make([][]int64, len(vals))
 	for i, v := range vals {
 		vs[i] = inner(v)
+		ownVals[i] = append([]int64(nil), v...)
 	}
-	o := ret + "/" + strconv.FormatInt(s.m.Len(), 10) + "/" + joinInts(l, ";") + "/" + strings.Join(vs, ";") + "/"
 	for _, v := range vals { // a returned slice is a copy: scribbling must not change the map
 		scribble(v)
 	}
+	scribbleAny(vals, []int64{-997})
+	o := ret + "/" + strconv.FormatInt(s.m.Len(), 10) + "/" + joinInts(l, ";") + "/" + strings.Join(vs, ";") + "/"
 	if s.dump != nil {
 		o += s.dump()
 	}
-	return o
+	o += "/" + nilFlags(keysNil, valsNil) + "/"
+	if s.aligned {
+		a := "ok"
+		if len(own) != len(ownVals) {
+			a = "bad@len"
+		} else {
+			for i := range own {
+				v, ok := s.m.Get(own[i])
+				if !ok || inner(v) != inner(ownVals[i]) {
+					a = "bad@" + strconv.Itoa(i)
+					break
+				}
+				scribble(v)
+			}
+		}
+		o += a
+	}
+	return o + "/"
 }
 
 func (s *mmap[K]) step(op string) string {
@@ -300,9 +369,14 @@ func (s *mmap[K]) step(op string) string {
 	case "g":
 		v, ok := s.m.Get(s.mk(atoi(f[1])))
 		r := fmt.Sprintf("%s,%d", inner(v), b2i(ok))
+		if v == nil {
+			r = "~" + r // Get: nil exactly when the key is absent
+		}
 		scribble(v)
 		return s.obs(r)
 	case "d":
+		// the nil-ness of the slice returned by Delete is not compared (it is the stored slice, nil or
+		// empty depending on how the key was created)
 		v, ok := s.m.Delete(s.mk(atoi(f[1])))
 		r := fmt.Sprintf("%s,%d", inner(v), b2i(ok))
 		scribble(v)
@@ -352,7 +426,7 @@ func setStep(s *set.MapSet[int64], op string) string {
 		return ret
 	}
 	ks := s.Keys()
-	o := ret + "/" + joinInts(ks, ";")
+	o := ret + "/" + joinInts(ks, ";") + "/" + nilFlags(ks == nil, false)
 	scribble(ks)
 	return o
 }
@@ -381,14 +455,14 @@ func runHistory(container, code, eq string, ops []string) (line string) {
 		step = s.step
 	case "lhm":
 		m := mapx.NewLinkedHashMap[hk, int64](4)
-		s := &smap[hk]{m: m, mk: mkH, un: unH, dump: linkedDump(m), backward: m.VerifBackward, cyclic: m.VerifCyclic}
+		s := &smap[hk]{m: m, mk: mkH, un: unH, dump: linkedDump(m), backward: m.VerifBackward, cyclic: m.VerifCyclic, aligned: true}
 		step = s.step
 	case "ltm":
 		m, err := mapx.NewLinkedTreeMap[int64, int64](cmpInt)
 		if err != nil {
 			return "ctor-error"
 		}
-		s := &smap[int64]{m: m, mk: id, un: id, backward: m.VerifBackward}
+		s := &smap[int64]{m: m, mk: id, un: id, backward: m.VerifBackward, aligned: true}
 		step = s.step
 	case "builtin":
 		s := &smap[int64]{m: mapx.VerifNewBuiltinMap[int64, int64](4), mk: id, un: id}
@@ -402,7 +476,7 @@ func runHistory(container, code, eq string, ops []string) (line string) {
 		if err != nil {
 			return "ctor-error"
 		}
-		s := &mmap[int64]{m: m, mk: id, un: id}
+		s := &mmap[int64]{m: m, mk: id, un: id, aligned: true}
 		step = s.step
 	case "set":
 		s := set.NewMapSet[int64](4)
